@@ -275,7 +275,13 @@ pub fn run_bf(c: &Case) -> Obs {
         FW::Panic(m) => return Obs::fail("Panic|-", "bcf-file-writer-panic", &m),
     };
     let (robs, e, l) = read_obs(&stream);
-    let obs = format!("{}|{}", hex(&stream), robs);
+    // NV.Bcf.FileBytes.file_bytes_ok on the writer's input: every string of a RecordBuf is bytes
+    // and the header text is bytes by construction, so the predicate is "every record is
+    // sites-only" (no FORMAT keys, no sample rows); the written stream is bytes by type.
+    // ALL = NV.Bcf.FileBytesFmt.file_bytes_ok_all (per-sample values included): holds for every
+    // input here, the model must compute 1
+    let sites_only = recs.iter().all(|r| r.keys.is_empty() && r.samples.is_empty());
+    let obs = format!("{}|{}|WB={};ok;ALL=1;ok", hex(&stream), robs, if sites_only { "1" } else { "0" });
     let mut verdict: Result<(), (String, String)> = Ok(());
     let mut fail = |t: &str, d: String| {
         if verdict.is_ok() {
